@@ -271,6 +271,26 @@ impl Model {
         Some(m)
     }
 
+    /// The union for layerings in which a path may be a directory in one layer and a file in
+    /// another: the first layer that has the path decides its type ("a file is served from the
+    /// first layer that has it"), a directory merges the children of *all* layers in which it is
+    /// a directory.  Admissible only if no entry of any layer lies below a path that is a file in
+    /// the union (what such an entry means is not specified).
+    pub fn union_of_ext(layers: &[Vec<(String, Node)>]) -> Option<Model> {
+        let mut m = Model::new();
+        for layer in layers {
+            for (p, n) in layer {
+                if m.t.get(p).is_none() {
+                    m.t.insert(p.clone(), n.clone());
+                }
+            }
+        }
+        if !m.well_formed() {
+            return None;
+        }
+        Some(m)
+    }
+
     /// Abstraction of an observed snapshot (used to resynchronise after calls whose failure
     /// effects the property leaves open).
     pub fn from_entries(entries: impl Iterator<Item = (String, Node)>) -> Model {
